@@ -5,6 +5,7 @@ CONSTANTS N = 1
  UseModules = FALSE
  MaxGets = 0
  DoExport = FALSE
+ StepTables = FALSE
 CONSTRAINT Track
 INVARIANT SingleClass
 INVARIANT AbstractNeverReturned
